@@ -71,6 +71,7 @@ func main() {
 		return
 	}
 	c := core.New("C01")
+	c.ReplayFallback()
 	if len(os.Args) > 1 && os.Args[1] == "--warm" {
 		c.Cleanup()
 		return
